@@ -59,7 +59,7 @@ def run(ctx):
                                 headers=ans.headers,
                                 body=(ans.body or b"")[:60]))
 
-    n = 150 if ctx.quick else 2500
+    n = 150 if ctx.quick else 20000
     # ---- correspondence through the model: pool values + random ones
     scenarios = []
     for v in dc.VAL_POOL:
